@@ -85,6 +85,8 @@ def den(i, m, d, st):
     if d is NIL:
         return st
     if isinstance(d, str):
+        if len(d) == 0:
+            return st           # an empty fragment is not observable (normalisation drops it)
         return St(st.out + [d], st.col + len(d), st.k)
     if d is HARDLINE:
         return St(st.out + [SLine(i)], i, st.k)
@@ -101,7 +103,8 @@ def den(i, m, d, st):
             return den(i, m, d._when_flat, st)
         return den(i, m, d._when_broken, st)
     if isinstance(d, Group):
-        if nrm_ab(d.doc) or nrm_nil(d.doc):
+        if reach_ab(d.doc) or nrm_nil(d.doc):
+            # forced content (an always_break is reachable in the flat rendering), or nothing to render: no decision
             return den(i, BREAK_MODE, d.doc, st)
         if oracle(st.k):
             return den(i, FLAT_MODE, d.doc, St(st.out, st.col, st.k + 1))
@@ -118,6 +121,16 @@ def den(i, m, d, st):
 @C.spec([('a', 'Ann'), ('st', 'St')], 'St')
 def den_close(a, st):
     return St(st.out + [SAnnotationPop(a)], st.col, st.k)
+
+
+@C.spec([('out', 'Out')], 'Out')
+def erase_empty(out):
+    """the emitted stream without empty text fragments"""
+    if not out:
+        return out
+    if isinstance(out[-1], str) and len(out[-1]) == 0:
+        return erase_empty(out[:-1])
+    return erase_empty(out[:-1]) + [out[-1]]
 
 
 @C.spec([('i', 'Int'), ('m', 'Mode'), ('ds', 'ObjList'), ('st', 'St')], 'St')
@@ -280,31 +293,76 @@ def flatok_stack(stack):
     return flatok(stack[-1][1], stack[-1][2]) and flatok_stack(stack[:-1])
 
 
+@C.spec([('d', 'Obj')], 'Bool')
+def fillclean(d):
+    """no fill has a NIL item (normalisation drops such items, which re-pairs contents and separators)"""
+    if isinstance(d, Concat):
+        return fillclean_list(d.docs)
+    if isinstance(d, Fill):
+        return no_nil_item(d.docs) and fillclean_list(d.docs)
+    if isinstance(d, Nest):
+        return fillclean(d.doc)
+    if isinstance(d, Group):
+        return fillclean(d.doc)
+    if isinstance(d, AlwaysBreak):
+        return fillclean(d.doc)
+    if isinstance(d, Annotated):
+        return fillclean(d.doc)
+    if isinstance(d, FlatChoice):
+        return fillclean(d._when_flat) and fillclean(d._when_broken)
+    if isinstance(d, Contextual):
+        return ctx_ok(d.fn)
+    return True
+
+
+@C.spec([('ds', 'ObjList')], 'Bool')
+def fillclean_list(ds):
+    if not ds:
+        return True
+    return fillclean(ds[0]) and fillclean_list(ds[1:])
+
+
+@C.spec([('ds', 'ObjList')], 'Bool')
+def no_nil_item(ds):
+    if not ds:
+        return True
+    return ds[0] is not NIL and no_nil_item(ds[1:])
+
+
+
+@C.spec([('stack', 'Stack')], 'Bool')
+def fillclean_stack(stack):
+    if not stack:
+        return True
+    return fillclean(stack[-1][2]) and fillclean_stack(stack[:-1])
+
+
 # ------------------------------------------------------------------------------------------------
 # lemmas
 
 @C.lemma([('i', 'Int'), ('m', 'Mode'), ('d', 'Obj'), ('st', 'St')],
-         requires=['wf(d)', 'flatok(m, d)'], ensures=['den(i, m, norm(d), st) == den(i, m, d, st)'],
+         requires=['wf(d)', 'flatok(m, d)', 'fillclean(d)'], ensures=['den(i, m, norm(d), st) == den(i, m, d, st)'],
          triggers=['den(i, m, norm(d), st)'], trusted=True,
-         note='postcondition of normalize_doc (normalisation family, not yet proved): normalisation preserves the denotation '
-              'wherever no flat alternative stands next to an always_break (flatok)')
+         note='postcondition `den` of normalize_doc, PROVED in family normalize (normalize_doc/return/post:den and the methods it '
+              'dispatches to): normalisation preserves the denotation wherever no flat alternative stands next to an always_break '
+              '(flatok) and no fill has a NIL item (fillclean); restated over norm(d)')
 def lemma_norm_den(i, m, d, st):
     pass
 
 
 @C.lemma([('d', 'Obj')], requires=['wf(d)'],
          ensures=['implies(hlsafe(d), hlsafe(norm(d)))', 'implies(nohl(d), nohl(norm(d)))',
-                  'implies(reach_ab(d), reach_ab(norm(d)))',
-                  'implies(flatok(FLAT_MODE, d), flatok(FLAT_MODE, norm(d)))'],
+                  'reach_ab(norm(d)) == reach_ab(d)',
+                  'implies(flatok(FLAT_MODE, d), flatok(FLAT_MODE, norm(d)))',
+                  'implies(fillclean(d), fillclean(norm(d)))'],
          triggers=['norm(d)'], trusted=True,
-         note='postconditions of normalize_doc (normalisation family, not yet proved): normalisation introduces no hard line, '
-              'loses no always_break and keeps flatok')
+         note='postconditions hlsafe / nohl / reach / flatok / fillclean of normalize_doc, PROVED in family normalize; restated over norm(d)')
 def lemma_norm_shape(d):
     pass
 
 
 @C.lemma([('i', 'Int'), ('m', 'Mode'), ('d', 'Obj'), ('st', 'St')],
-         requires=['isinstance(d, FlatChoice)', 'wf(d)', 'flatok(m, d._when_flat)'],
+         requires=['isinstance(d, FlatChoice)', 'wf(d)', 'flatok(m, d._when_flat)', 'fillclean(d._when_flat)'],
          ensures=['den(i, m, acc_flat(d), st) == den(i, m, d._when_flat, st)'],
          triggers=['den(i, m, acc_flat(d), st)'])
 def lemma_acc_flat_den(i, m, d, st):
@@ -312,7 +370,7 @@ def lemma_acc_flat_den(i, m, d, st):
 
 
 @C.lemma([('i', 'Int'), ('m', 'Mode'), ('d', 'Obj'), ('st', 'St')],
-         requires=['isinstance(d, FlatChoice)', 'wf(d)', 'flatok(m, d._when_broken)'],
+         requires=['isinstance(d, FlatChoice)', 'wf(d)', 'flatok(m, d._when_broken)', 'fillclean(d._when_broken)'],
          ensures=['den(i, m, acc_broken(d), st) == den(i, m, d._when_broken, st)'],
          triggers=['den(i, m, acc_broken(d), st)'])
 def lemma_acc_broken_den(i, m, d, st):
@@ -322,7 +380,7 @@ def lemma_acc_broken_den(i, m, d, st):
 @C.lemma([('fn', 'CtxFn'), ('a', 'Int'), ('b', 'Int'), ('c', 'Int'), ('d', 'Int')],
          requires=['ctx_ok(fn)'],
          ensures=['hlsafe(apply_ctx(fn, a, b, c, d))', 'nohl(apply_ctx(fn, a, b, c, d))',
-                  'flatok(FLAT_MODE, apply_ctx(fn, a, b, c, d))'],
+                  'flatok(FLAT_MODE, apply_ctx(fn, a, b, c, d))', 'fillclean(apply_ctx(fn, a, b, c, d))'],
          triggers=['apply_ctx(fn, a, b, c, d)'], trusted=True,
          note='definition of ctx_ok: a premise about user contextual functions (align/hang of hlsafe documents satisfy it)')
 def lemma_ctx_ok(fn, a, b, c, d):
@@ -454,45 +512,37 @@ def lemma_nofits_list(mw, smart, mnl, i, ds, w):
 
 
 @C.lemma(_WQ + [('d', 'Obj'), ('w', 'Int')],
-         requires=['nrm_ab(d)', 'nohl(d)', 'w >= 0', 'wf(d)'],
+         requires=['reach_ab(d)', 'nohl(d)', 'w >= 0', 'wf(d)'],
          ensures=['walk(mw, smart, mnl, i, FLAT_MODE, d, w).status is FAILS'],
          triggers=['walk(mw, smart, mnl, i, FLAT_MODE, d, w)'], decreases=['size(d)'], group='forced')
 def lemma_forced_fails(mw, smart, mnl, i, d, w):
-    """content that normalises to an always_break and has no hard line in front of it never fits"""
+    """content with an always_break reachable in its flat rendering, and no hard line in front of it, never fits
+    (why a forced group is never laid out flat)"""
     if isinstance(d, Concat):
+        lemma_forced_fails_list(mw, smart, mnl, i, d.docs, w)
+    elif isinstance(d, Fill):
         lemma_forced_fails_list(mw, smart, mnl, i, d.docs, w)
     elif isinstance(d, Nest):
         lemma_forced_fails(mw, smart, mnl, i + d.indent, d.doc, w)
     elif isinstance(d, Group):
         lemma_forced_fails(mw, smart, mnl, i, d.doc, w)
-    elif isinstance(d, Fill):
-        lemma_fill_ab_fails(mw, smart, mnl, i, d.docs, w)
+    elif isinstance(d, Annotated):
+        lemma_forced_fails(mw, smart, mnl, i, d.doc, w)
+    elif isinstance(d, FlatChoice):
+        lemma_forced_fails(mw, smart, mnl, i, acc_flat(d), w)
 
 
 @C.lemma(_WQ + [('ds', 'ObjList'), ('w', 'Int')],
-         requires=['nrm_ab_list(ds)', 'nohl_list(ds)', 'w >= 0', 'wflist(ds)'],
+         requires=['reach_ab_list(ds)', 'nohl_list(ds)', 'w >= 0', 'wflist(ds)'],
          ensures=['walklist(mw, smart, mnl, i, FLAT_MODE, ds, w).status is FAILS'],
          triggers=['walklist(mw, smart, mnl, i, FLAT_MODE, ds, w)'], decreases=['sizelist(ds)'], group='forced')
 def lemma_forced_fails_list(mw, smart, mnl, i, ds, w):
     if not ds:
         return
-    if nrm_ab(ds[0]):
+    if reach_ab(ds[0]):
         lemma_forced_fails(mw, smart, mnl, i, ds[0], w)
     elif walk(mw, smart, mnl, i, FLAT_MODE, ds[0], w).status is GO:
         lemma_forced_fails_list(mw, smart, mnl, i, ds[1:], walk(mw, smart, mnl, i, FLAT_MODE, ds[0], w).w)
-
-
-@C.lemma(_WQ + [('ds', 'ObjList'), ('w', 'Int')],
-         requires=['fill_any_ab(ds)', 'nohl_list(ds)', 'w >= 0', 'wflist(ds)'],
-         ensures=['walklist(mw, smart, mnl, i, FLAT_MODE, ds, w).status is FAILS'],
-         triggers=['walklist(mw, smart, mnl, i, FLAT_MODE, ds, w)'], decreases=['sizelist(ds)'], group='forced')
-def lemma_fill_ab_fails(mw, smart, mnl, i, ds, w):
-    if not ds:
-        return
-    if isinstance(ds[0], AlwaysBreak):
-        return
-    if walk(mw, smart, mnl, i, FLAT_MODE, ds[0], w).status is GO:
-        lemma_fill_ab_fails(mw, smart, mnl, i, ds[1:], walk(mw, smart, mnl, i, FLAT_MODE, ds[0], w).w)
 
 
 @C.lemma(_WQ + [('d', 'Obj'), ('w', 'Int')],
@@ -536,6 +586,15 @@ def lemma_push_rev_flatok(stack, i, m, ds):
     lemma_push_rev_flatok(stack, i, m, ds[1:])
 
 
+@C.lemma([('stack', 'Stack'), ('i', 'Int'), ('m', 'Mode'), ('ds', 'ObjList')],
+         ensures=['implies(fillclean_stack(stack) and fillclean_list(ds), fillclean_stack(push_rev(stack, i, m, ds)))'],
+         triggers=['push_rev(stack, i, m, ds)'], decreases=['len(ds)'])
+def lemma_push_rev_fillclean(stack, i, m, ds):
+    if not ds:
+        return
+    lemma_push_rev_fillclean(stack, i, m, ds[1:])
+
+
 # ------------------------------------------------------------------------------------------------
 # contracts: best_layout against den
 
@@ -555,19 +614,21 @@ C.contract(
     params={'doc': 'Obj', 'width': 'Int', 'ribbon_frac': 'Float', 'fitting_predicate': 'fn', 'outcol': 'Int', 'mode': 'Mode'},
     fnparams={'fitting_predicate': 'fitting_predicate'},
     yields='Out', locals_={'triplestack': 'Stack'},
-    requires=['width == PW', 'RW == max(0, min(PW, round(ribbon_frac * PW)))', 'wf(doc)', 'hlsafe(doc)', 'flatok(mode, doc)'],
+    requires=['width == PW', 'RW == max(0, min(PW, round(ribbon_frac * PW)))', 'wf(doc)', 'hlsafe(doc)', 'flatok(mode, doc)',
+              'fillclean(doc)'],
     ghost={'ok': ('Bool', 'True'), 'k': ('Int', '0')},
-    ensures=[('den', 'implies(ok, result == %s.out)' % _FINAL)],
+    ensures=[('den', 'implies(ok, erase_empty(result) == %s.out)' % _FINAL)],
     loops={0: dict(
         inv=[('wf', 'wf_stack(triplestack)'),
              ('hlsafe', 'hlsafe_stack(triplestack)'),
              ('flatok', 'flatok_stack(triplestack)'),
+             ('fillclean', 'fillclean_stack(triplestack)'),
              ('rw', 'ribbon_width == RW'),
-             ('den', 'implies(ok, dens(triplestack, St(__out__, outcol, k)) == %s)' % _FINAL)],
+             ('den', 'implies(ok, dens(triplestack, St(erase_empty(__out__), outcol, k)) == %s)' % _FINAL)],
         decreases=['stack_size(triplestack)'],
         ghost_back=['''
 if isinstance(doc, Group):
-    if not (nrm_ab(doc.doc) or nrm_nil(doc.doc)):
+    if not (reach_ab(doc.doc) or nrm_nil(doc.doc)):
         ok = ok and (oracle(k) == (triplestack[-1][1] is FLAT_MODE))
         k = k + 1
 elif isinstance(doc, Fill):
